@@ -25,6 +25,10 @@ CHECKS = {
    technique="bounded-exhaustive enumeration of all seek keys and all bound pairs of every kind over a catalogue of tree shapes (committed and mid-transaction), executed on the real library against the reference filter",
    text="For each bucket shape (empty, single leaf, two and three levels, every deletion subset of the two-level base, nested buckets; each committed and inside an open write transaction) every probe key (each key, both gaps next to it, below, above, empty) is used for get, seek+iterate and as lower/upper bound of every kind in all combinations, also through the bucket-only and pair-only iterators, plus next() after exhaustion.",
    note="Trusted: refmodel filter. The shape catalogue and probe construction bound the input space; within it nothing is sampled."),
+ "C12": dict(engine="metax", cat="fault_enumeration", ref="DESIGN.md §2 C12",
+   technique="exhaustive enumeration of single-header damage patterns (every offset x byte values, word-range fills, all word mixes of the two headers) applied to closed files after 0..n commits; each damaged image opened by the real library and compared with the state of the newest header still valid per the independent checker",
+   text="Every damage pattern of the bounded classes on either header page of every base file is opened with the real library: open must succeed, the full dump must equal the state recorded by the newest header that is still valid (type byte + checksum, decided by fileck), DB::check() must agree, and one more commit must read back and leave a well-formed file.",
+   note="Trusted: fileck's restatement of header validity; refmodel. One header damaged, the rest of the file intact."),
 }
 
 NA = {}
@@ -62,6 +66,7 @@ def main():
         },
         "engines": [
             {"name": "enumx", "path": "mc/src/enumx.rs", "serves_properties": ["C08"], "kind_free_text": "bounded-exhaustive input enumeration (seek keys x bound kinds x shapes) on the real read API"},
+            {"name": "metax", "path": "mc/src/metax.rs", "serves_properties": ["C12"], "kind_free_text": "exhaustive byte/word damage enumeration on header pages, recovered with the real open()"},
             {"name": "seqx", "path": "mc/src/seqx.rs", "serves_properties": ["C01", "C03", "C05", "C06", "C07", "C10"], "kind_free_text": "explicit-state BFS over histories of whole transactions executed on the real library in worker processes; state = history, key = structural digest of file + shared in-memory bookkeeping"},
         ],
         "checks": checks,
